@@ -36,8 +36,10 @@ def v1_bpm_policy(written, got):
     return "truncated-to-integer" if gotv == float(int(GS.undbits(b))) else "unexplained"
 
 
-def build_case(cid, schema, sA, sB, simple_first):
-    ops = [{"op": "create_temporary", "schema": schema}]
+def build_case(cid, schema, sA, sB, simple_first, bystander):
+    # a bystander track: writing to t0 must never change it
+    ops = [{"op": "create_temporary", "schema": schema}, {"op": "create_track", "as": "tb", "snap": bystander},
+           {"op": "snapshot", "t": "tb"}]
     if simple_first:
         ops.append({"op": "create_track", "as": "t0", "snap": {"relative_path": GS.hx("seed/first.mp3")}})
         ops.append({"op": "update", "t": "t0", "snap": sA})
@@ -45,7 +47,8 @@ def build_case(cid, schema, sA, sB, simple_first):
         ops.append({"op": "create_track", "as": "t0", "snap": sA})
     ops += [{"op": "snapshot", "t": "t0"}, {"op": "update_last", "t": "t0"}, {"op": "snapshot", "t": "t0"},
             {"op": "update", "t": "t0", "snap": sB},
-            {"op": "snapshot", "t": "t0"}, {"op": "update_last", "t": "t0"}, {"op": "snapshot", "t": "t0"}]
+            {"op": "snapshot", "t": "t0"}, {"op": "update_last", "t": "t0"}, {"op": "snapshot", "t": "t0"},
+            {"op": "snapshot", "t": "tb"}]
     return {"id": cid, "schema": schema, "ops": ops, "_sA": sA, "_sB": sB, "_simple": simple_first}
 
 
@@ -71,12 +74,19 @@ def judge_case(ctx, res):
     i = 1
     writes = []  # (write_index, written_snapshot, opname)
     if case["_simple"]:
-        writes.append((2, case["_sA"], "update"))
-        base = 3
+        writes.append((4, case["_sA"], "update"))
+        base = 5
     else:
-        writes.append((1, case["_sA"], "create_track"))
-        base = 2
+        writes.append((3, case["_sA"], "create_track"))
+        base = 4
     writes.append((base + 3, case["_sB"], "update"))
+    # the bystander before and after everything
+    if len(evs) == len(ops) and "ret" in evs[2] and "ret" in evs[-1]:
+        ctx.bump("bystander_checks")
+        for f in GS.snapshots_equal(evs[2]["ret"], evs[-1]["ret"]):
+            ctx.violation(f"other-track-changed {fam} {f}", f"{schema}: create/update of one track changed {f} of another track", wit)
+    elif len(evs) == len(ops) and "ret" in evs[2] and "exc" in evs[-1]:
+        ctx.violation(f"other-track-changed {fam} snapshot-throws", f"{schema}: snapshot() of a bystander track throws after writes to another track", wit)
     for wi, written, opname in writes:
         ev = evs[wi]
         ctx.count()
@@ -150,7 +160,8 @@ def run(ctx):
             big = (ctx.tier != "quick" and k % 50 == 0) or (k == 7)
             sA = GS.gen_snapshot(ctx.rng, schema, rich=rich, big=big, allow_nul=True, borderline=True)
             sB = GS.gen_snapshot(ctx.rng, schema, rich=(k % 2 == 0), borderline=True)
-            cases.append(build_case("c%d" % n, schema, sA, sB, simple_first=(k % 4 == 3)))
+            by = GS.gen_snapshot(ctx.rng, schema, rich=True, hostile_sentinels=False)
+            cases.append(build_case("c%d" % n, schema, sA, sB, simple_first=(k % 4 == 3), bystander=by))
             n += 1
     for c in cases[:2]:
         ctx.sample({"schema": c["schema"], "written": {k: (v if len(str(v)) < 200 else str(v)[:200]) for k, v in c["_sA"].items()}})
@@ -175,9 +186,9 @@ def replay(ctx, doc):
     case = {"id": "replay", "schema": r["schema"], "ops": r["ops"]}
     # recover the written snapshots from the ops
     ops = r["ops"]
-    simple = ops[1]["op"] == "create_track" and ops[2]["op"] == "update"
+    simple = ops[3]["op"] == "create_track" and ops[4]["op"] == "update"
     case["_simple"] = simple
-    case["_sA"] = ops[2]["snap"] if simple else ops[1]["snap"]
-    case["_sB"] = ops[6 if simple else 5]["snap"]
+    case["_sA"] = ops[4]["snap"] if simple else ops[3]["snap"]
+    case["_sB"] = ops[8 if simple else 7]["snap"]
     res = runner.run_one(case, cfg="plain")
     judge_case(ctx, res)
